@@ -156,13 +156,13 @@ func (m *mlinkModel) analyseCursorFn(fn *ssa.Function, report func(in ssa.Instru
 func runC10(c *Ctx) {
 	P := c.P
 	c.Explanation = "Decides the structural clauses of the property: (R-CURSOR-VALID) in every function of package mlink, each access to the links through a cursor's current position is dominated — in a typestate dataflow over go/ssa — by a validation of that same position (checkValid, or a cursor method whose computed summary validates on all paths), so a stale cursor panics instead of hanging or altering the list; the validator tests exactly the marker the detach sites write. (R-DETACH-INVALIDATE) every link store that drops entries is preceded by invalidation of what it drops. (R-TAIL-RESET, R-SIZE-PAIR) mlink.Queue re-seats its cached tail cursor when the entry it hangs on can be detached, and size changes are paired one-to-one with insert/remove/clear. (R-RING-MIRROR) in package ring every next-link write has its mirror prev-link write in the same block. (R-YIELD) Each iterators are stoppable. Does NOT decide that the resulting sequences/cycles are the documented ones, Stack behaviour beyond Each, or termination of ring walks."
-	c.rule("R-CURSOR-VALID", 9, "every access to entry fields through cur.pred is preceded on all paths by a validation of the current cur.pred")
+	c.rule("R-CURSOR-VALID", 5, "every access to entry fields through cur.pred is preceded on all paths by a validation of the current cur.pred")
 	c.rule("R-MARKER-AGREE", 1, "checkValid panics exactly when e.link == e, the marker written by detach sites; and returns e")
-	c.rule("R-DETACH-INVALIDATE", 7, "every store P.link = V is an insertion, a marker, or a detach preceded by invalidation of the dropped entries")
-	c.rule("R-TAIL-RESET", 3, "after Cursor.Remove/List.Clear inside mlink.Queue every path re-seats back (unconditionally or when the list is empty); Add re-seats a zero back cursor")
-	c.rule("R-SIZE-PAIR", 3, "size+1 ↔ one-element back.Add, size-1 ↔ cur.Remove on the not-at-end path, size=0 ↔ list.Clear")
-	c.rule("R-RING-MIRROR", 7, "every store A.next = B has in the same block a store B.prev = A and vice versa")
-	c.rule("R-YIELD", 6, "Stack.Each, List.Each, Queue.Each, ring.scan/Each stop after f returned false")
+	c.rule("R-DETACH-INVALIDATE", 4, "every store P.link = V is an insertion, a marker, or a detach preceded by invalidation of the dropped entries")
+	c.rule("R-TAIL-RESET", 2, "after Cursor.Remove/List.Clear inside mlink.Queue every path re-seats back (unconditionally or when the list is empty); Add re-seats a zero back cursor")
+	c.rule("R-SIZE-PAIR", 2, "size+1 ↔ one-element back.Add, size-1 ↔ cur.Remove on the not-at-end path, size=0 ↔ list.Clear")
+	c.rule("R-RING-MIRROR", 4, "every store A.next = B has in the same block a store B.prev = A and vice versa")
+	c.rule("R-YIELD", 4, "Stack.Each, List.Each, Queue.Each, ring.scan/Each stop after f returned false")
 
 	m := &mlinkModel{P: P, eff: newEff(P), validates: map[*ssa.Function]bool{}, storesPred: map[*ssa.Function]bool{}}
 	m.cursorT = P.Named("mlink", "Cursor")
